@@ -1,7 +1,6 @@
 import Geo.Props.C16
-open Geo
-#print axioms T16_1_segment_zw
-#print axioms T16_2_triangle_lambdas
-#print axioms T16_1_segment_interval
-#print axioms T16_2_triangle_sign
-#print axioms T16_1_gram_pos
+#print axioms Geo.T16_1_segment_zw
+#print axioms Geo.T16_2_triangle_lambdas
+#print axioms Geo.T16_1_segment_interval
+#print axioms Geo.T16_2_triangle_sign
+#print axioms Geo.T16_1_gram_pos
